@@ -39,6 +39,10 @@ type descriptor struct {
 	// immediately after it returned (before the first flow has left the start event)
 	PreStart int `json:"preStart"`
 	Early    int `json:"early"`
+	// BusyBus: the instance takes its events from a source of the caller's on
+	// which an event (nobody waits for) arrives while the instance is still
+	// being built - before most of its nodes exist
+	BusyBus bool `json:"busyBus,omitempty"`
 }
 
 func build(d descriptor) (*gen.Graph, map[string]any) {
@@ -173,7 +177,8 @@ func drawDef(rt *rapid.T) gen.EventDef {
 }
 
 func draw(rt *rapid.T) descriptor {
-	d := descriptor{Shape: rapid.SampledFrom([]string{"seq", "par", "xor", "funnel", "sub"}).Draw(rt, "shape"), Perturb: uint64(rapid.IntRange(0, 300).Draw(rt, "perturb"))}
+	d := descriptor{Shape: rapid.SampledFrom([]string{"seq", "par", "xor", "funnel", "sub"}).Draw(rt, "shape"), Perturb: uint64(rapid.IntRange(0, 300).Draw(rt, "perturb")),
+		BusyBus: rapid.IntRange(0, 3).Draw(rt, "busyBus") == 0}
 	if d.Shape == "sub" {
 		d.Depth = rapid.IntRange(1, 2).Draw(rt, "depth")
 	}
@@ -339,7 +344,7 @@ func draw(rt *rapid.T) descriptor {
 
 func run(d descriptor) *drive.ScriptOutcome {
 	g, vars := build(d)
-	c := &drive.ScriptCase{Graph: g, Lang: "expr", Vars: vars, Script: d.Script, Perturb: d.Perturb, Drain: false}
+	c := &drive.ScriptCase{Graph: g, Lang: "expr", Vars: vars, Script: d.Script, Perturb: d.Perturb, Drain: false, BusyBus: d.BusyBus}
 	for i := 0; i < d.PreStart; i++ {
 		c.PreStart = append(c.PreStart, model.Ev{Kind: "signal", Ref: "zz"})
 	}
@@ -364,6 +369,9 @@ func classify(d descriptor, out *drive.ScriptOutcome) (cls []string, nt bool) {
 		}
 	}
 	cls = append(cls, "shape="+d.Shape, fmt.Sprintf("events=%d", events))
+	if d.BusyBus {
+		cls = append(cls, "eventArrivesWhileTheInstanceIsBuilt")
+	}
 	if d.PreStart > 0 {
 		cls = append(cls, "eventsBeforeStart")
 	}
